@@ -137,6 +137,10 @@ func (g *pgen) assetExpr(asset string) *Expr {
 	if g.chance(30) {
 		return &Expr{K: "asset", S: gen.Pick(g.r, assetPool)}
 	}
+	if g.chance(g.bad) {
+		// lexer-valid ASSET tokens that the asset pattern rejects
+		return &Expr{K: "asset", S: gen.Pick(g.r, []string{"A/B", "USD/1234567", "1A", "/", "USD//2", "ABCDEFGHIJKLMNOPQR", "USD/"})}
+	}
 	return &Expr{K: "asset", S: asset}
 }
 
@@ -171,6 +175,15 @@ func (g *pgen) monAtom(asset string) *Expr {
 	return &Expr{K: "mon", A: g.assetExpr(asset), N: g.amount()}
 }
 
+// atomOf strips an expression down to its leftmost atom: the grammar has no
+// parentheses, so the right operand of + / - is always atomic.
+func atomOf(e *Expr) *Expr {
+	for e.K == "add" || e.K == "sub" {
+		e = e.L
+	}
+	return e
+}
+
 func (g *pgen) monExpr(asset string, depth int) *Expr {
 	e := g.monAtom(asset)
 	for i := 0; i < depth && g.r.Intn(5) == 0; i++ {
@@ -178,7 +191,7 @@ func (g *pgen) monExpr(asset string, depth int) *Expr {
 		if g.r.Intn(3) == 0 {
 			op = "sub"
 		}
-		e = &Expr{K: op, L: e, R: g.monAtom(asset)}
+		e = &Expr{K: op, L: e, R: atomOf(g.monAtom(asset))}
 	}
 	return e
 }
@@ -415,6 +428,9 @@ func (g *pgen) varValue(ty string) string {
 		}
 		if g.r.Intn(8) == 0 {
 			return "-" + g.amount()
+		}
+		if g.r.Intn(40) == 0 {
+			return gen.Pick(g.r, []string{"null", " null", " 7 ", "-0"})
 		}
 		return g.amount()
 	case "string":
